@@ -156,6 +156,8 @@ SETUP = ["k0::{77}", "id1::{x}", "snd::{x;y}", "trd::{x;y;z}", "und1::{x;:_x}", 
 BUILTIN_NAMES = ["k0", "id1", "snd", "trd", "und1", "pyid", "pysnd", "bump", "keep", "cnt", "last"]
 FN_ARITY = dict(k0=0, id1=1, snd=2, trd=3, und1=1, pyid=1, pysnd=2, bump=1, keep=1)
 USER_NAMES = ["foo", "bar", "baz", "k1", "k2"]
+REBIND_NAMES = ["g", "h"]                 # names re-bound to functions of different arity by text
+FN_BODIES = {0: "{77}", 1: "{x}", 2: "{x;y}", 3: "{x;y;z}"}      # model code = arity
 
 
 def _setup_interp(k):
@@ -189,6 +191,9 @@ def _mtok(m):
         return "get:" + tok(m.key)
     if isinstance(m, ipc.KGRemoteCloseConnection):
         return "close"
+    if isinstance(m, str) and type(m) is str and len(m) > 2000:
+        import hashlib
+        return f"S{len(m)}:{hashlib.sha1(m.encode()).hexdigest()}"      # long text: length + digest
     return tok(m)
 
 
@@ -276,9 +281,9 @@ class StreamRig:
         return b"".join(got)
 
 
-def _impl_line(raw, tail, total):
+def _impl_line(raw, tail, total, with_msgs=True):
     """what the real run observed, in the model's reply format"""
-    msgs = ",".join(i.hex() + "/" + b.hex() for i, b in raw)
+    msgs = ",".join(i.hex() + "/" + b.hex() for i, b in raw) if with_msgs else "-"
     if tail is None:
         return f"msgs={msgs} tail=budget"
     partial, expected = tail
@@ -289,25 +294,12 @@ def _impl_line(raw, tail, total):
     return f"msgs={msgs} tail={t}"
 
 
-def ask_batched(drv, lines, budget=12000):
-    """pipelined asks in groups small enough that neither pipe can fill up (Driver.ask_many writes a
-    whole group before reading; a group whose replies exceed the pipe buffer would deadlock)"""
-    out, group, size = [], [], 0
-    for ln in lines:
-        if len(ln) > budget:
-            if group:
-                out += drv.ask_many(group)
-                group, size = [], 0
-            out.append(drv.ask(ln))
-            continue
-        if size + len(ln) > budget:
-            out += drv.ask_many(group)
-            group, size = [], 0
-        group.append(ln)
-        size += len(ln) + 1
-    if group:
-        out += drv.ask_many(group)
-    return out
+def ask_batched(drv, lines):
+    """pipelined asks (Driver.ask_many feeds from a writer thread, so sizes do not matter);
+    single requests go through ask() to spare the thread"""
+    if len(lines) <= 2:
+        return [drv.ask(ln) for ln in lines]
+    return drv.ask_many(lines)
 
 
 def _cuts3(n):
@@ -316,7 +308,7 @@ def _cuts3(n):
             yield (i, j)
 
 
-def run_stream_batch(ctx, drv, rig, label, frames, objs, ids, stream, cuts, lazy=False, toks=None):
+def run_stream_batch(ctx, drv, rig, label, frames, objs, ids, stream, cuts, lazy=False, toks=None, model_max=None):
     """one byte stream (concatenated real frames, possibly truncated) under a list of cuts"""
     if toks is None:
         toks = [_mtok(o) for o in objs]
@@ -330,9 +322,15 @@ def run_stream_batch(ctx, drv, rig, label, frames, objs, ids, stream, cuts, lazy
     ncomplete = sum(1 for e in ends if e <= n)
     clean = n in ([0] + ends)
     lines, impls, cases = [], [], []
-    for (i, j) in cuts:
+    frames_hex = [f.hex() for f in frames]
+    bodies = [f[20:] for f in frames]
+    pick = None
+    if model_max is not None and len(cuts) > model_max:
+        # long frames: the model sees a subset (hex lines of several 100 KB), the oracle sees all
+        pick = set(ctx.rng.sample(range(len(cuts)), model_max))
+    for ci, (i, j) in enumerate(cuts):
         chunks = [stream[:i], stream[i:j], stream[j:]]
-        case = dict(kind="stream", label=label, frames=[f.hex() for f in frames], length=n, cuts=[i, j],
+        case = dict(kind="stream", label=label, frames=frames_hex, length=n, cuts=[i, j],
                     lazy=lazy, msgs=toks)
         try:
             raw, out, tail = rig.recv_all(chunks, lazy)
@@ -343,26 +341,28 @@ def run_stream_batch(ctx, drv, rig, label, frames, objs, ids, stream, cuts, lazy
         # ---- property oracle (no model)
         exp = [(ids[k], toks[k]) for k in range(ncomplete)]
         got = [(m, _mtok(o)) for m, o in out]
-        if got != exp or [b for _, b in raw] != [f[20:] for f in frames[:ncomplete]]:
+        if got != exp or [b for _, b in raw] != bodies[:ncomplete]:
             und = any("U" in t.split(",") or ":U" in t for _, t in exp)
             fail(ctx, "stream:messages:undefined" if und else "stream:messages", case, [f"{m}:{t}" for m, t in exp], [f"{m}:{t}" for m, t in got],
                             "messages must come out intact, one by one, in order")
-        impl = _impl_line(raw, tail, n)
+        impl = _impl_line(raw, tail, n, with_msgs=(pick is None or ci in pick))
         ended_clean = impl.endswith("tail=clean")
         if tail is None or ended_clean != clean:
             fail(ctx, "stream:tail", case, "clean end" if clean else "IncompleteReadError inside a frame",
                             impl.split("tail=")[1])
-        lines.append("decode chunks=" + ",".join(c.hex() for c in chunks))
-        impls.append(impl)
-        cases.append(case)
+        if pick is None or ci in pick:
+            lines.append("decode chunks=" + ",".join(c.hex() for c in chunks))
+            impls.append(impl)
+            cases.append(case)
+        ctx.evaluations += 1
         ctx.bump("stream:" + ("complete" if n == len(full) else "truncated"))
         ctx.bump("stream:tail:" + impl.split("tail=")[1].split(":")[1] if "inside" in impl else "stream:tail:clean")
     if drv and lines:
         for line, impl, case, model in zip(lines, impls, cases, ask_batched(drv, lines)):
             if model != impl:
                 ctx.mismatch("Klong.C13.decodeStream vs stream_recv_msg", case, model[:2000], impl[:2000])
-    ctx.evaluations += len(lines)
-    ctx.count((label, n, len(cuts), lazy, tuple(f.hex() for f in frames)))
+    ctx.count((label, n, len(cuts), lazy, tuple(frames_hex)))
+    ctx.evaluations -= 1
     return lines, impls
 
 
@@ -387,7 +387,7 @@ def run_framing(ctx, drv, twin):
                 if sent != f:
                     fail(ctx, "stream:send", dict(kind="encode", id=i.hex, msg=_mtok(o)), f.hex()[:200],
                                     sent.hex()[:200], "stream_send_msg must write exactly one encoded frame")
-                if drv:
+                if drv and (len(f) < 20000 or not quick or rng.random() < 0.15):
                     m = drv.ask(f"encode id={f[:16].hex()} body={f[20:].hex()}")
                     if m != "frame=" + f.hex():
                         ctx.mismatch("Klong.C13.encode vs encode_message", dict(kind="encode", frame=f.hex()[:400]),
@@ -462,7 +462,48 @@ def run_framing(ctx, drv, twin):
             run_stream_batch(ctx, drv, rig, "payload-seeded", frames, objs, ids, full[:n], cuts,
                              lazy=rng.random() < 0.5)
 
-        # ---- long frames (lengths that need 2 and 3 length bytes)
+        # ---- a long frame (body around and above the StreamReader buffer limit 2^16) with small frames
+        #      right behind / in front of it: fed merged in one read and cut at the places that matter
+        over = len(pickle.dumps("a" * 1000)) - 1000
+        targets = [65535, 65536, 65537, 70000, 2 ** 17 + 1]
+        if not quick:
+            targets += [2 ** 16 + 2 ** 15, 2 ** 17, 2 ** 18 + 5]
+        for T in targets:
+            L = T - over
+            L += T - len(pickle.dumps("a" * L))           # pickle frames large strings differently
+            big = "".join(rng.choice("abc") for _ in range(L))
+            if len(pickle.dumps(big)) != T:
+                raise Infra(f"could not build a pickle of exactly {T} bytes")
+            for shape in ("big-small", "small-big-small", "big-small-small", "big-big"):
+                if quick and shape != rng.choice(["big-small", "small-big-small"]) and T != 65537:
+                    continue
+                objs = {"big-small": [big, 1], "small-big-small": [None, big, ""],
+                        "big-small-small": [big, 1, twin(":a")], "big-big": [big, big]}[shape]
+                ids, frames = mk(objs)
+                full = b"".join(frames)
+                n = len(full)
+                ends, pos = [], 0
+                for f in frames:
+                    pos += len(f)
+                    ends.append(pos)
+                marks = {0, n, 16, 20, 20 + 2 ** 16, 20 + 2 ** 16 + 1}
+                for e in ends:
+                    marks |= {e - 1, e, e + 1, e + 16, e + 20, e - 2 ** 16, e - 2 ** 16 + 20}
+                marks = sorted(m for m in marks if 0 <= m <= n)
+                cuts = [(n, n), (0, 0), (0, n)]                      # everything merged in one read
+                cuts += [(m, n) for m in marks] + [(m, m) for m in marks]
+                cuts += [(a, b) for a in marks for b in marks if a < b and rng.random() < (0.08 if quick else 0.3)]
+                for lazy in (False, True):
+                    run_stream_batch(ctx, drv, rig, "long-merged:" + shape, frames, objs, ids, full, cuts,
+                                     lazy=lazy, model_max=1 if quick else 8)
+                # and truncated inside / right after the long frame
+                for cutlen in sorted({ends[0] - 1, ends[-1] - 1, 20 + 2 ** 16, n - 3}):
+                    if 0 < cutlen < n:
+                        c = [(cutlen, cutlen), (0, 0)] + [(m, cutlen) for m in marks if m <= cutlen][:4]
+                        run_stream_batch(ctx, drv, rig, "long-truncated:" + shape, frames, objs, ids,
+                                         full[:cutlen], c, lazy=bool(cutlen % 2), model_max=1 if quick else 3)
+
+        # ---- long frames (lengths that need 2 and 3 length bytes), seeded
         sizes = [255, 256, 257, 1000, 4095, 65535, 65536, 70000]
         for r in range(6 if quick else 40):
             k = rng.randrange(1, 4)
@@ -558,7 +599,7 @@ class Live:
 
     @staticmethod
     def handles(conn):
-        return ("f", "d") if conn == 0 else ("g", "e")
+        return ("f", "d") if conn == 0 else ("ff", "dd")
 
     def guard(self, fn, what):
         """run a client-side call with a deadline (a hung connection is an infrastructure failure)"""
@@ -592,7 +633,7 @@ class Live:
         for k in (self.srv, self.twin):
             k("cnt::0")
             k("last::0")
-            for n in USER_NAMES:
+            for n in USER_NAMES + REBIND_NAMES:
                 try:
                     del k[KGSym(n)]
                 except KeyError:
@@ -601,7 +642,7 @@ class Live:
     def digest(self, k):
         from klongpy.core import KGSym
         out = []
-        for n in sorted(BUILTIN_NAMES + USER_NAMES):
+        for n in sorted(BUILTIN_NAMES + USER_NAMES + REBIND_NAMES):
             try:
                 v = k[KGSym(n)]
             except KeyError:
@@ -680,10 +721,19 @@ def run_op(ctx, live, drv, op, history):
             text = ":_" + op["name"]
             tv = twin(text)
             model_x = "undefq," + op["name"]
+        elif form == "text-defn":
+            text = f'{op["name"]}::{FN_BODIES[op["arity"]]}'
+            tv = twin(text)
+            model_x = f'defn,{op["name"]},{op["arity"]}'
         elif form in ("sym", "dget"):
             tv = twin(op["name"])
             asked = op["name"]
         elif form == "proxy":
+            cur = _fn_arity(twin[KGSym(op["name"])])
+            if cur is None:
+                return True                 # the name holds data at the moment: nothing to call
+            if op.get("fit"):
+                op = dict(op, es=op["es"][:cur])
             tv = twin(op["name"] + _args_text(op["es"]))
         elif form == "fcall":
             # the request is built from the client-side list x = [:name a1 .. an]; the same call locally
@@ -749,10 +799,10 @@ def run_op(ctx, live, drv, op, history):
             q = live.guard(lambda: cli(f'q::{f}(:{op["name"]})' if via == "f" else f'q::{d}?:{op["name"]}'),
                            "proxy fetch")
             qt = tok(q)
-            want = f'P{FN_ARITY[op["name"]]},y{_hex(op["name"])}'
+            want = f'P{cur},y{_hex(op["name"])}'
             if qt != want:
                 fail(ctx, f"live:proxy-fetch:{via}", case, want, qt,
-                                "asking for a remote function must give a proxy of its arity")
+                                "asking for a remote function must give a proxy of the arity it has now")
                 return False
             model_line0 = ("apply x=y" + _hex(op["name"])) if via == "f" else f'dget name={op["name"]}'
             if drv:
@@ -850,6 +900,29 @@ def gen_pair_ops(rng, e1, e2, conn):
     ]
 
 
+def gen_rebind_history(rng, name, a1, a2, via1, via2, conn, how):
+    """look a remote function up as a proxy, re-bind the name on the server to a function of another
+    arity (text eval through this or the other connection, or dict set of data in between), look it up
+    again and call it"""
+    args = [rng.choice(UNIVERSE) for _ in range(3)]
+    ops = [dict(form="text-defn", name=name, arity=a1, conn=conn),
+           dict(form="proxy", name=name, es=args, fit=True, conn=conn, via=via1)]
+    if how == "other-conn":
+        ops.append(dict(form="text-defn", name=name, arity=a2, conn=1 - conn))
+    elif how == "via-data":
+        ops += [dict(form="dset", name=name, e=rng.choice(UNIVERSE), conn=conn, style="py"),
+                dict(form="dget", name=name, conn=conn),
+                dict(form="text-defn", name=name, arity=a2, conn=conn)]
+    else:
+        ops.append(dict(form="text-defn", name=name, arity=a2, conn=conn))
+    ops += [dict(form="proxy", name=name, es=args, fit=True, conn=conn, via=via2),
+            dict(form="sym", name=name, conn=conn),
+            dict(form="dget", name=name, conn=conn),
+            dict(form="proxy", name=name, es=list(reversed(args)), fit=True, conn=conn, via=via1),
+            dict(form="fcall", name=name, es=args[:a2], conn=conn, style="array")]
+    return ops
+
+
 def gen_sequence(rng, length):
     ops = []
     for _ in range(length):
@@ -857,7 +930,12 @@ def gen_sequence(rng, length):
         e = rng.choice(UNIVERSE)
         r = rng.random()
         n = rng.choice(USER_NAMES)
-        if r < 0.12:
+        if r < 0.06:
+            ops.append(dict(form="text-defn", name=rng.choice(REBIND_NAMES), arity=rng.randrange(4), conn=conn))
+        elif r < 0.12:
+            ops.append(dict(form="proxy", name=rng.choice(REBIND_NAMES), es=[rng.choice(UNIVERSE) for _ in range(3)],
+                            fit=True, conn=conn, via=rng.choice("fd")))
+        elif r < 0.16:
             ops.append(dict(form="fcall", name="bump", es=[rng.choice(["1", "2", "-3", "17"])], conn=conn,
                             style="array"))
         elif r < 0.2:
@@ -893,7 +971,8 @@ def run_sequence(ctx, live, drv, ops, singleton):
         for conn in (0, 1):
             if not live.is_open(conn):
                 live.connect(conn)
-        if op["form"] in ("text-var", "text-undefq", "sym", "dget") and op["name"] in USER_NAMES:
+        if op["form"] in ("text-var", "text-undefq", "sym", "dget", "proxy") and \
+                op["name"] in USER_NAMES + REBIND_NAMES:
             from klongpy.core import KGSym
             try:
                 live.twin[KGSym(op["name"])]
@@ -941,6 +1020,18 @@ def run_live(ctx, drv, live, singleton):
     pairs += [(u, rng.choice(UNIVERSE)) for u in UNDEF_EXPRS[: (2 if quick else 7)]]
     for e1, e2 in pairs:
         run_sequence(ctx, live, drv, gen_pair_ops(rng, e1, e2, rng.randrange(2)), singleton)
+    # proxies across re-binding of the remote name
+    combos = [(a1, a2) for a1 in range(4) for a2 in range(4) if a1 != a2]
+    if quick:
+        combos = [(2, 1), (1, 2)] + rng.sample(combos, 3)
+    for a1, a2 in combos:
+        for how in (["same-conn"] if quick else ["same-conn", "other-conn", "via-data"]):
+            ops = gen_rebind_history(rng, rng.choice(REBIND_NAMES), a1, a2, rng.choice("fd"), rng.choice("fd"),
+                                     rng.randrange(2), how)
+            run_sequence(ctx, live, drv, ops, singleton)
+    if quick:
+        run_sequence(ctx, live, drv, gen_rebind_history(rng, "g", 1, 3, "d", "f", 0, "other-conn"), singleton)
+        run_sequence(ctx, live, drv, gen_rebind_history(rng, "h", 3, 0, "f", "d", 1, "via-data"), singleton)
     # seeded histories
     for s in range(12 if quick else 250):
         ops = gen_sequence(rng, rng.randrange(4, 14 if quick else 40))
